@@ -61,7 +61,7 @@ def run_listener(obs, binary, name, count, seed, nproc):
     jobs = [dict(VP_SEED=seed, VP_COUNT=chunk, VP_FIRST=i * chunk) for i in range(nproc)]
 
     def one(env):
-        rc, so, se = vlib.run([binary], env=dict({k: str(v) for k, v in env.items()}, ASAN_OPTIONS='detect_leaks=0:abort_on_error=0', UBSAN_OPTIONS='print_stacktrace=1'), timeout=3000)
+        rc, so, se = vlib.run([binary], env=dict({k: str(v) for k, v in env.items()}, ASAN_OPTIONS='detect_leaks=0:abort_on_error=0', UBSAN_OPTIONS='print_stacktrace=1', MSAN_OPTIONS='check_printf=1'), timeout=3000)   # %s arguments of the listeners' printf calls are checked too
         return env, rc, so, se
     for env, rc, so, se in vlib.run_parallel(one, jobs):
         obs.procs += 1
